@@ -25,6 +25,7 @@ type Req struct {
 	List   []int64 // Id, Id+1, Id+2
 	Fail2  bool    // a member of q4's conc block fails
 	Dirty  bool    // rule qd assigns a local and then faults
+	Tab    map[string]int64 // {"k": Id}: read with a string-literal key and with a variable key
 }
 
 type Resp struct {
@@ -40,6 +41,7 @@ type Resp struct {
 	C2    int64
 	Seen  int64 // must stay 0: rule ql reads a local it never assigned
 	Tw    int64 // Req.Twice(): a method of the request's own object
+	MV    int64 // Req.Tab["k"] + Req.Tab[kv]: map element reads on request data
 }
 
 type Key struct{ Id int64 }
@@ -104,6 +106,8 @@ begin
     Resp.Grade = 3
   }
   Resp.Tw = Req.Twice()
+  kv = "k"
+  Resp.MV = Req.Tab["k"] + Req.Tab[kv]
   Resp.Out3 = Req.Id
   return Req.Id
 end
@@ -417,7 +421,7 @@ func (s *Storm) genCall(r *rand.Rand, gateOnly bool) trace.Call {
 // fire performs one request and checks what it got back (C06 clauses).
 func (s *Storm) fire(r *rand.Rand, c trace.Call, fail, boom bool, holdUs int64, keys []string) *done {
 	id := atomic.AddInt64(&s.nextID, 1)
-	req := &Req{Id: id, Fail: fail, Boom: boom, HoldUs: holdUs, List: []int64{id, id + 1, id + 2}}
+	req := &Req{Id: id, Fail: fail, Boom: boom, HoldUs: holdUs, List: []int64{id, id + 1, id + 2}, Tab: map[string]int64{"k": id}}
 	if s.faults && !fail && !boom {
 		req.Fail2 = r.Intn(7) == 0
 		req.Dirty = r.Intn(7) == 0
@@ -522,6 +526,9 @@ func (s *Storm) checkIdentity(d *done, when string) {
 		}
 		if _, ran := d.res["q3"]; ran && d.resp.Tw != 2*id {
 			s.find("iso", m+"/foreign-method-receiver", fmt.Sprintf("%s: request %d: Req.Twice() returned %d, on its own object it is %d", m, id, d.resp.Tw, 2*id), map[string]interface{}{"call": d.call})
+		}
+		if _, ran := d.res["q3"]; ran && d.resp.MV != 2*id {
+			s.find("iso", m+"/foreign-map-element", fmt.Sprintf("%s: request %d: Req.Tab[\"k\"] + Req.Tab[kv] gave %d, its own map gives %d", m, id, d.resp.MV, 2*id), map[string]interface{}{"call": d.call})
 		}
 		if _, ran := d.res["q3"]; ran && (d.resp.Sum3 != 3*id+6 || d.resp.Grade != 2) {
 			s.find("iso", m+"/loop-or-branch-disturbed", fmt.Sprintf("%s: request %d: forRange+for over its own list gave %d (expected %d), else-if chain gave grade %d (expected 2)", m, id, d.resp.Sum3, 3*id+6, d.resp.Grade), map[string]interface{}{"call": d.call})
@@ -805,6 +812,20 @@ func (s *Storm) Run(clients, perClient int, faults bool) {
 		for _, e := range errs {
 			s.find("cap", "double-use", e, nil)
 		}
+	}
+	// phase 2b (a third of the storms): rounds in which max requests are released at the same instant, so
+	// that their hand-backs collide; an instance lost in such a collision shows in phase 3
+	if s.r.Intn(3) == 0 {
+		rounds := 20 + s.r.Intn(30)
+		for i := 0; i < rounds; i++ {
+			wgr, okr := s.saturate(max, "rendezvous round")
+			s.gate.Release()
+			if !okr || !waitDone(wgr, progressBound) {
+				s.find("cap", "waiters-stuck", "requests of a rendezvous round did not complete", dump())
+				return
+			}
+		}
+		k.Count("rendezvous_rounds", int64(rounds))
 	}
 	// phase 3: the pool can still serve max simultaneous requests; they reach every instance
 	// and must see none of the keys injected during the storm
